@@ -121,6 +121,8 @@ func checkC11(c *Ctx) {
 		}
 	}
 
+	checkWriteUnconditional(c, "C11.R1.skip-exists", gen)
+
 	// ---- R2 configure template and flag wiring
 	checkConfigureWiring(c, gen, cmd)
 
@@ -158,6 +160,12 @@ func checkC11(c *Ctx) {
 	for _, cs := range goan.FindCalls([]*packages.Package{gen}, func(n string) bool { return readers[n] }) {
 		k := cs.FnName + " › " + cs.Callee
 		why, ok := allowedReaders[k]
+		if cs.FnName == "GenOpts.write" {
+			// inside the writer only the directory may be examined: anything that looks at the
+			// target file itself (beyond fileExists) makes the output depend on a previous run
+			ok = ok && len(cs.Call.Args) == 1 && goan.ExprString(cs.Call.Args[0]) == "dir"
+			k += "(" + goan.ExprString(cs.Call.Args[0]) + ")"
+		}
 		c.Check(ok, "C11.R4.target-reads", "generator."+k, c.posOf(gen, cs.Call.Pos()), "audited: "+why, "file-system read at an unaudited site: generated output may depend on existing target content")
 	}
 }
@@ -201,6 +209,41 @@ func checkConfigureWiring(c *Ctx, gen, cmd *packages.Package) {
 	if !found {
 		c.Anchor(rule, "DefaultSectionOpts › asset:serverConfigureapi", "template option not found")
 	}
+	// a TemplateOpts value that carries SkipExists is final: re-targeting it afterwards (Source,
+	// Name, FileName, Target assigned through its variable) would make another template inherit
+	// the "never overwrite" protection and go stale
+	ast.Inspect(fd.Body, func(n ast.Node) bool {
+		as, ok := n.(*ast.AssignStmt)
+		if !ok || len(as.Lhs) != 1 || len(as.Rhs) != 1 {
+			return true
+		}
+		cl, ok := ast.Unparen(as.Rhs[0]).(*ast.CompositeLit)
+		if !ok || goan.NamedName(info.TypeOf(cl)) != "TemplateOpts" || goan.Field(cl, "SkipExists") == nil {
+			return true
+		}
+		id, ok := as.Lhs[0].(*ast.Ident)
+		if !ok {
+			return true
+		}
+		obj := info.Defs[id]
+		if obj == nil {
+			obj = info.Uses[id]
+		}
+		var stores []string
+		ast.Inspect(fd.Body, func(m ast.Node) bool {
+			if st, ok := m.(*ast.AssignStmt); ok {
+				for _, l := range st.Lhs {
+					if se, ok := ast.Unparen(l).(*ast.SelectorExpr); ok && identIs(info, se.X, obj) && se.Sel.Name != "SkipExists" {
+						stores = append(stores, se.Sel.Name)
+					}
+				}
+			}
+			return true
+		})
+		c.Check(len(stores) == 0, rule, "generator.DefaultSectionOpts › "+id.Name+" (carries SkipExists) is not re-targeted", c.posOf(gen, as.Pos()), "no field store through the variable",
+			fmt.Sprintf("fields %v of a TemplateOpts that carries SkipExists are reassigned afterwards: another template inherits `SkipExists` and is never regenerated once its file exists", stores))
+		return true
+	})
 	// (b) fields read by DefaultSectionOpts (not written by it)
 	readSet := map[string]bool{}
 	written := map[string]bool{}
@@ -357,4 +400,43 @@ func flattenStruct(st *types.Struct) *types.Struct {
 	}
 	walk(st)
 	return types.NewStruct(fields, tags)
+}
+
+// checkWriteUnconditional: in GenOpts.write the only success return that precedes the final
+// os.WriteFile is the SkipExists guard: every other object that resolves to a target is
+// (re)written on every generation, whatever the target held before.
+func checkWriteUnconditional(c *Ctx, rule string, gen *packages.Package) {
+	fd := load.FuncDecl(gen, "GenOpts.write")
+	if fd == nil {
+		c.Anchor(rule, "GenOpts.write", "not found")
+		return
+	}
+	info := gen.TypesInfo
+	var lastWrite token.Pos
+	ast.Inspect(fd.Body, func(n ast.Node) bool {
+		if call, ok := n.(*ast.CallExpr); ok {
+			if fn := goan.Callee(info, call); fn != nil && goan.CalleeName(fn) == "os.WriteFile" && call.Pos() > lastWrite {
+				lastWrite = call.Pos()
+			}
+		}
+		return true
+	})
+	var early []string
+	goan.WalkGuards(info, fd.Body, func(n ast.Node, guards []goan.Lit, _ []ast.Stmt) {
+		rs, ok := n.(*ast.ReturnStmt)
+		if !ok || rs.Pos() > lastWrite || len(rs.Results) != 1 || !goan.IsIdent(rs.Results[0], "nil") {
+			return
+		}
+		skip := false
+		for _, g := range guards {
+			if g.Pos && !g.Early && goan.LastSel(g.E) == "SkipExists" {
+				skip = true
+			}
+		}
+		if !skip {
+			early = append(early, c.posOf(gen, rs.Pos()))
+		}
+	})
+	c.Check(lastWrite.IsValid() && len(early) == 0, rule, "generator.GenOpts.write › the SkipExists guard is the only success return before the file is written", c.posOf(gen, fd.Pos()), "every other target is rewritten on every run",
+		fmt.Sprintf("write() returns nil before writing at %v outside the SkipExists guard: a file left by a previous run (e.g. the embedded spec) survives a regeneration from a changed spec", early))
 }
